@@ -260,11 +260,11 @@ class RowInterp:
             v = self.ev(e.value, env)
             if isinstance(v, RT):
                 if e.attr == "shape":
-                    return (len(v.cells), v.rest)
+                    return (len(v.cells), v.rest) if v.rest is not None else (len(v.cells),)
                 if e.attr == "device":
                     return "device"
                 if e.attr == "ndim":
-                    return 2
+                    return 2 if v.rest is not None else 1
             if v == "torch":
                 return f"torch.{e.attr}"
             raise RowUnknown(f"attribute {U(e)[:40]}")
@@ -282,6 +282,23 @@ class RowInterp:
             raise RowUnknown("subscript")
         if isinstance(e, ast.Call):
             return self.call(e, env)
+        if isinstance(e, (ast.ListComp, ast.GeneratorExp)) and len(e.generators) == 1 and isinstance(e.generators[0].target, ast.Name):
+            g = e.generators[0]
+            it = self.ev(g.iter, env)
+            if not isinstance(it, (list, tuple, range)):
+                raise RowUnknown("comprehension over a non-constant range")
+            out = []
+            for x in it:
+                env2 = dict(env)
+                env2[g.target.id] = x
+                if all(self.ev(c, env2) for c in g.ifs):
+                    out.append(self.ev(e.elt, env2))
+            return out
+        if isinstance(e, ast.IfExp):
+            c = self.ev(e.test, env)
+            if not isinstance(c, bool):
+                raise RowUnknown("conditional expression on a non-constant")
+            return self.ev(e.body if c else e.orelse, env)
         raise RowUnknown(f"expression {type(e).__name__}")
 
     def call(self, e, env):
@@ -300,7 +317,7 @@ class RowInterp:
                 return max(args)
             if f.id == "len":
                 a = args[0]
-                return 2 if (isinstance(a, tuple) and len(a) == 2 and a[1] == "rest") else len(a)
+                return len(a)
             fn = env.get(f.id) or self.helpers.get(f.id)
             if fn is None:
                 from .core import module_lookup
@@ -323,6 +340,8 @@ class RowInterp:
                 if not isinstance(n, int):
                     raise RowUnknown("zeros with a symbolic row count")
                 t = RT.zeros(n)
+                t.rest = (shape[1] if len(shape) > 1 else None) if isinstance(shape, tuple) else None
+                t.alloc_shape = shape
                 t.dtype = "uint8" if kw.get("dtype") == "torch.uint8" else str(kw.get("dtype"))
                 self.alloc = t
                 return t
